@@ -153,58 +153,81 @@ func c10RuleLoop(c *Ctx, r *Result, fn *ssa.Function, fAction, fFail *types.Var)
 		r.Undecide("Rule.Action / eventProcessor.failOnFirstError not found")
 		return
 	}
-	// the action call: call of a value loaded from field Action of *(slice[i])
-	var actionCall *ssa.Call
-	var slice ssa.Value
-	allInstrs(fn, func(in ssa.Instruction) {
-		call, ok := in.(*ssa.Call)
-		if !ok || call.Call.IsInvoke() {
-			return
-		}
-		ld, ok := call.Call.Value.(*ssa.UnOp)
-		if !ok {
-			return
-		}
-		fa, ok := ld.X.(*ssa.FieldAddr)
-		if !ok || fieldVar(fa) != fAction {
-			return
-		}
-		actionCall = call
-		// fa.X = *(&slice[i])
-		if l2, ok := fa.X.(*ssa.UnOp); ok {
-			if ia, ok := l2.X.(*ssa.IndexAddr); ok {
-				slice = ia.X
-			}
-		}
-	})
-	if actionCall == nil || slice == nil {
+	// the action call — possibly in a helper the loop was extracted into
+	rl := findRuleLoop(c, fn, fAction)
+	if rl == nil {
 		r.Undecide("R10b: the call of Rule.Action on an element of a slice was not found in %s", key)
 		return
 	}
+	actionCall := rl.Action
 	pos := c.Pos(c.InstrPos(actionCall))
-	sorts := callSites(fn, func(name string, _ ssa.CallInstruction) bool {
+	selFn, selVals, selCall := rl.selection(c)
+	isSort := func(name string, _ ssa.CallInstruction) bool {
 		return strings.HasSuffix(name, "engine.SortRuleSlice") || name == "sort.Sort" || name == "sort.Stable"
-	})
+	}
 	ok := false
 	why := "no sort call"
-	for _, s := range sorts {
-		arg := s.Common().Args[0]
-		if stripConv(arg) != slice {
-			why = fmt.Sprintf("the sorted value (%s) is not the slice the loop executes (%s)", accessPath(arg), accessPath(slice))
-			continue
+	// where the loop starts, seen from the function that holds the sort
+	loopStart := func(in *ssa.Function) ssa.Instruction {
+		switch {
+		case in == rl.LoopFn:
+			return actionCall
+		case rl.LoopCall != nil && in == rl.Proc:
+			return rl.LoopCall
 		}
-		if !dominates(s, actionCall) {
-			why = "the sort does not dominate the rule loop"
-			continue
+		return nil
+	}
+	if selCall != nil {
+		// the executing slice is the result of a selection helper: the sort is applied there to the
+		// value that is returned, and dominates every return
+		for _, s := range callSites(selFn, isSort) {
+			arg := stripConv(s.Common().Args[0])
+			all := len(selVals) > 0
+			for _, rv := range selVals {
+				if unspill(rv) != unspill(arg) {
+					all = false
+				}
+			}
+			if !all {
+				why = fmt.Sprintf("the sorted value (%s) is not the slice %s returns", accessPath(arg), selFn.Name())
+				continue
+			}
+			dom := true
+			allInstrs(selFn, func(in ssa.Instruction) {
+				if ret, isRet := in.(*ssa.Return); isRet && in.Block() != selFn.Recover && len(ret.Results) > 0 {
+					if _, isNil := ret.Results[0].(*ssa.Const); !isNil && !dominates(s, in) {
+						dom = false
+					}
+				}
+			})
+			if !dom {
+				why = "the sort does not dominate the return of the selected rules"
+				continue
+			}
+			ok = true
 		}
-		if inLoop(s.Block()) && sccOf(s.Block())[actionCall.Block()] {
-			why = "the sort is inside the rule loop"
-			continue
+	} else {
+		e := selVals[0]
+		for _, s := range callSites(selFn, isSort) {
+			arg := s.Common().Args[0]
+			if unspill(stripConv(arg)) != unspill(e) {
+				why = fmt.Sprintf("the sorted value (%s) is not the slice the loop executes (%s)", accessPath(arg), accessPath(e))
+				continue
+			}
+			ls := loopStart(selFn)
+			if ls == nil || !dominates(s, ls) {
+				why = "the sort does not dominate the rule loop"
+				continue
+			}
+			if inLoop(s.Block()) && ls == ssa.Instruction(actionCall) && sccOf(s.Block())[actionCall.Block()] {
+				why = "the sort is inside the rule loop"
+				continue
+			}
+			ok = true
 		}
-		ok = true
 	}
 	if ok {
-		r.Instance("R10b", key+"#sort-then-loop", pos, "ok", "the slice whose elements' Action is called is the SSA value passed to the sort, which dominates the loop", true)
+		r.Instance("R10b", key+"#sort-then-loop", pos, "ok", "the slice whose elements' Action is called is the value that was sorted, and the sort precedes the loop", true)
 	} else {
 		r.Instance("R10b", key+"#sort-then-loop", pos, "finding", why, true)
 		r.Report(Finding{Rule: "R10b", Site: key + "#sort-then-loop", Pos: pos,
@@ -266,6 +289,89 @@ func c10RuleLoop(c *Ctx, r *Result, fn *ssa.Function, fAction, fFail *types.Var)
 					continue
 				}
 				found = true
+			}
+		}
+	}
+	if !found {
+		// flag form: `stop = failOnFirstError && len(errors) > 0` after the action, loop condition `... && !stop`
+		for b := range loop {
+			for _, in := range b.Instrs {
+				phi, isPhi := in.(*ssa.Phi)
+				if !isPhi {
+					break
+				}
+				if !isLoopHeaderPhi(phi) || phi.Type().String() != "bool" {
+					continue
+				}
+				// the back-edge value: false when the flag field is false, len(errors) > 0 otherwise
+				okBack := false
+				for i, pr := range b.Preds {
+					if !b.Dominates(pr) {
+						continue
+					}
+					v, isV := phi.Edges[i].(*ssa.Phi)
+					if !isV || len(v.Edges) != 2 {
+						continue
+					}
+					hasFalse, hasLen, underFail := false, false, false
+					for j, e := range v.Edges {
+						if cv, isC := e.(*ssa.Const); isC && cv.Value != nil && cv.Value.String() == "false" {
+							hasFalse = true
+							continue
+						}
+						if bo, isB := e.(*ssa.BinOp); isB && bo.Op == token.GTR {
+							if k, isC := constInt(bo.Y); isC && k == 0 {
+								if call, isCall := bo.X.(*ssa.Call); isCall && isBuiltinCall(call, "len") {
+									if _, isMap := call.Call.Args[0].Type().Underlying().(*types.Map); isMap {
+										hasLen = true
+										// computed under failOnFirstError == true
+										pb := v.Block().Preds[j]
+										if len(pb.Instrs) > 0 {
+											for fv := range FactsAt(pb.Instrs[len(pb.Instrs)-1]).TrueV {
+												if ld, isLd := fv.(*ssa.UnOp); isLd && fieldVar(ld.X) == fFail {
+													underFail = true
+												}
+											}
+										}
+										if dominates(actionCall, bo) {
+											// after the action
+										} else {
+											hasLen = false
+										}
+									}
+								}
+							}
+						}
+					}
+					if hasFalse && hasLen && underFail {
+						okBack = true
+					}
+				}
+				if !okBack {
+					continue
+				}
+				// the loop is left when the flag is true: some exit edge of the loop is taken under phi == true / !phi == false
+				for lb := range loop {
+					ifi, isIf := lb.Instrs[len(lb.Instrs)-1].(*ssa.If)
+					if !isIf {
+						continue
+					}
+					cond := ifi.Cond
+					neg := false
+					if u, isU := cond.(*ssa.UnOp); isU && u.Op == token.NOT {
+						cond, neg = u.X, true
+					}
+					if cond != ssa.Value(phi) {
+						continue
+					}
+					exitSucc := lb.Succs[0] // taken when cond true
+					if neg {
+						exitSucc = lb.Succs[1]
+					}
+					if !loop[exitSucc] {
+						found = true
+					}
+				}
 			}
 		}
 	}
